@@ -241,6 +241,10 @@ def make_builtins(interp):
             raise
 
     def _hasattr(obj, name):
+        if name == "__iter__" and not isinstance(obj, Instance):
+            return isinstance(obj, (list, tuple, dict, set, str, NDArr, RangeVal))
+        if name == "__len__" and not isinstance(obj, Instance):
+            return isinstance(obj, (list, tuple, dict, set, str)) or (isinstance(obj, NDArr) and obj.ndim > 0)
         if isinstance(obj, Instance):
             if name in obj.attrs:
                 return True
